@@ -58,6 +58,16 @@ type XScript struct {
 	AwaitAttempts int
 	AwaitMS       int
 	Tracer        string // tracer mode (see tracer_test.go)
+	// Ctx[i] (optional, same length as Payloads): the context of call i ends
+	// after MS milliseconds (0 = never), by deadline or by cancellation.  With
+	// block_on_overflow a producer that is blocked on a full queue then gives up.
+	Ctx []XCtx
+}
+
+// XCtx is the lifetime of one caller's context.
+type XCtx struct {
+	MS     int
+	Cancel bool
 }
 
 // XBatch is a batching configuration (items).
@@ -140,7 +150,7 @@ func genX(t *rapid.T) XScript {
 	total := int(next - 1)
 
 	if s.Queue != "none" {
-		if rapid.Bool().Draw(t, "roomy") {
+		if rapid.IntRange(0, 3).Draw(t, "roomy") < 2 && !(s.Block && rapid.Bool().Draw(t, "tight")) {
 			s.QueueSize = 1 << 30
 		} else {
 			switch s.Sizer {
@@ -184,8 +194,17 @@ func genX(t *rapid.T) XScript {
 		s.AwaitAttempts = rapid.IntRange(1, 4).Draw(t, "await")
 		s.AwaitMS = 15
 	}
-	if !s.sync() && !s.Block && rapid.Bool().Draw(t, "hold?") {
+	if !s.sync() && rapid.Bool().Draw(t, "hold?") {
 		s.Hold = rapid.IntRange(1, np).Draw(t, "hold")
+	}
+	// callers' contexts: with block_on_overflow every call of the hold phase
+	// gets one that ends (the backend is gated, so a producer blocked on a full
+	// queue can only be released by its own context); elsewhere now and then
+	s.Ctx = make([]XCtx, np)
+	for i := range s.Ctx {
+		if (s.Block && i < s.Hold) || rapid.IntRange(0, 4).Draw(t, "ctx?") == 0 {
+			s.Ctx[i] = XCtx{MS: rapid.IntRange(1, 12).Draw(t, "ctxms"), Cancel: rapid.Bool().Draw(t, "cancel")}
+		}
 	}
 	return s
 }
@@ -353,8 +372,15 @@ type call struct {
 }
 
 func runXInner(c *vt.C, s *XScript) (nontrivial bool, f *vt.Finding) {
-	if s.Hold > 0 && (s.sync() || s.Block) || s.Hold > len(s.Payloads) {
-		return false, vt.Failf("harness/script", "hold phase with a configuration whose producers may block")
+	if s.Hold > 0 && s.sync() || s.Hold > len(s.Payloads) || (len(s.Ctx) != 0 && len(s.Ctx) != len(s.Payloads)) {
+		return false, vt.Failf("harness/script", "malformed hold phase or contexts")
+	}
+	if s.Block {
+		for i := 0; i < s.Hold; i++ {
+			if len(s.Ctx) == 0 || s.Ctx[i].MS <= 0 {
+				return false, vt.Failf("harness/script", "hold phase with block_on_overflow needs callers whose context ends")
+			}
+		}
 	}
 	opts, err := s.options()
 	if err != nil {
@@ -402,7 +428,22 @@ func runXInner(c *vt.C, s *XScript) (nontrivial bool, f *vt.Finding) {
 		calls[i] = &call{ids: idsOf(v)}
 		given += len(calls[i].ids)
 	}
-	offer := func(i int) { calls[i].err = exp.Consume(callerCtx(s.Tracer), vals[i]) }
+	offer := func(i int) {
+		ctx := callerCtx(s.Tracer)
+		if len(s.Ctx) > 0 && s.Ctx[i].MS > 0 {
+			d := time.Duration(s.Ctx[i].MS) * time.Millisecond
+			var cancel context.CancelFunc
+			if s.Ctx[i].Cancel {
+				ctx, cancel = context.WithCancel(ctx)
+				tm := time.AfterFunc(d, cancel)
+				defer tm.Stop()
+			} else {
+				ctx, cancel = context.WithTimeout(ctx, d)
+			}
+			defer cancel()
+		}
+		calls[i].err = exp.Consume(ctx, vals[i])
+	}
 
 	// phase 1: offers against a gated backend, then the gauges
 	if s.Hold == 0 {
@@ -532,7 +573,8 @@ func runXInner(c *vt.C, s *XScript) (nontrivial bool, f *vt.Finding) {
 			}
 		}
 	}
-	split, merged := false, false
+	split, merged, gaveUp := false, false, false
+	var sendErrCalls []int64
 	for _, cl := range calls {
 		attempted := 0
 		cs := map[int]bool{}
@@ -553,6 +595,9 @@ func runXInner(c *vt.C, s *XScript) (nontrivial bool, f *vt.Finding) {
 		switch {
 		case cl.err != nil && attempted == 0:
 			refusedN += int64(len(cl.ids))
+			if errors.Is(cl.err, context.DeadlineExceeded) || errors.Is(cl.err, context.Canceled) {
+				gaveUp = true
+			}
 			for _, id := range cl.ids {
 				if stored[id] {
 					return true, vt.Failf("exporter/refused-but-stored", "Consume returned %v for a request whose item %d is in the storage", cl.err, id)
@@ -560,6 +605,7 @@ func runXInner(c *vt.C, s *XScript) (nontrivial bool, f *vt.Finding) {
 			}
 		case cl.err != nil:
 			sendErrReturned += int64(len(cl.ids))
+			sendErrCalls = append(sendErrCalls, int64(len(cl.ids)))
 		}
 		if cl.err == nil || attempted > 0 {
 			for _, id := range cl.ids {
@@ -602,12 +648,15 @@ func runXInner(c *vt.C, s *XScript) (nontrivial bool, f *vt.Finding) {
 		}
 		expFailed = failN
 	}
-	if hasQueue && sendErrReturned > 0 && enq == refusedN+sendErrReturned {
-		ff := vt.Failf("exporter/send-failure-also-booked-as-enqueue-failed", "%d items whose request was enqueued and then failed to be sent were booked under send_failed AND enqueue_failed: %s", sendErrReturned, desc())
+	// every Consume call that returned an error although its request had been
+	// enqueued may or may not have been booked under enqueue_failed (the listed
+	// deviation is per call): the excess must be the items of some of them
+	if excess := enq - refusedN; hasQueue && excess > 0 && subsetSum(sendErrCalls, excess) {
+		ff := vt.Failf("exporter/send-failure-also-booked-as-enqueue-failed", "%d items whose request WAS enqueued (it reached the export function) but whose Consume call returned an error (the export result, or the caller's context error) were booked under enqueue_failed in addition to sent/send_failed: %s", excess, desc())
 		if !c.Soft(ff, s) {
 			return true, ff
 		}
-		expEnq = refusedN + sendErrReturned
+		expEnq = enq
 	}
 	storedOKListed := false
 	if storedOK > 0 && sent == okN {
@@ -661,6 +710,9 @@ func runXInner(c *vt.C, s *XScript) (nontrivial bool, f *vt.Finding) {
 	if refusedN > 0 {
 		kinds["queue-refused"] = true
 	}
+	if gaveUp {
+		c.Class("producer-context-ended-before-enqueue")
+	}
 	if storedOnly > 0 {
 		kinds["left-in-storage"] = true
 	}
@@ -699,6 +751,22 @@ func runXInner(c *vt.C, s *XScript) (nontrivial bool, f *vt.Finding) {
 		c.Class("shutdown-returned-error")
 	}
 	return len(kinds) >= 2 && (split || merged || retried), nil
+}
+
+// subsetSum reports whether some subset of xs adds up to target.
+func subsetSum(xs []int64, target int64) bool {
+	for mask := 1; mask < 1<<len(xs); mask++ {
+		var sum int64
+		for i, x := range xs {
+			if mask&(1<<i) != 0 {
+				sum += x
+			}
+		}
+		if sum == target {
+			return true
+		}
+	}
+	return false
 }
 
 func show(v any) string {
